@@ -297,6 +297,7 @@ static void cz_gen(Ctx& ctx) {
         int ac = pick(0, 2);
         double ar = ac == 0 ? 1.0 : pickd(0.5, 2.0), aphi = ac == 0 ? 0.0 : pickd(-M_PI, M_PI);
         if (ac == 2) ar = 1.0;   // unit-modulus a with a phase
+        if (ac == 1 && pick(0, 3) == 0) ar = 1.0 + (flip() ? 1 : -1) * std::pow(10.0, pickd(-15.5, -1));   // log-uniformly close to the unit circle, on either side
         // |a|^-j must stay representable: n*|log10 a| <= 280
         if (ar != 1.0 && n * std::fabs(std::log10(ar)) > 250) ar = 1.0;
         return Json::object().set("n", n).set("m", m).set("theta", theta).set("tcls", tn).set("ar", ar).set("aphi", aphi)
